@@ -33,9 +33,14 @@ fn judge(ctx: &mut Ctx, ic: &IssuedCase, pres: &str, policy: Option<&Validation>
     ctx.report.bump(&format!("{}:{}", label, vv.class()));
     let mut c2 = case.clone();
     c2["variant"] = json!(label);
+    // A `cnf` with two key candidates (the bare JWK members and a `jwk` member holding another key) is a token this
+    // library never issues, and the statement does not say which of the two is "the" bound key (the crate reads
+    // the bare members, RFC 7800 reads `jwk`): the crate's present reading is the model's, so a change of it shows
+    // as a broken correspondence, not as a named failing input.
+    let open_question = label.starts_with("cnf-with-second-candidate");
     match (&vv, accept) {
-        (Out::Ok(_), false) => ctx.report.diff("property", "Verifier::verify", &format!("Verifier::verify:accepts:{}", label), &c2, json!({"presentation": pres})),
-        (Out::Err(c, m), true) => ctx.report.diff("property", "Verifier::verify", &format!("Verifier::verify:rejects:{}", label), &c2, json!({"err": c, "msg": m, "presentation": pres})),
+        (Out::Ok(_), false) if !open_question => ctx.report.diff("property", "Verifier::verify", &format!("Verifier::verify:accepts:{}", label), &c2, json!({"presentation": pres})),
+        (Out::Err(c, m), true) if !open_question => ctx.report.diff("property", "Verifier::verify", &format!("Verifier::verify:rejects:{}", label), &c2, json!({"err": c, "msg": m, "presentation": pres})),
         (Out::Panic(site), _) => ctx.report.diff("property", "Verifier::verify", &format!("Verifier::verify:panic:{}", site.split(' ').next().unwrap_or("")), &c2, json!({"panic": site})),
         _ => {}
     }
